@@ -22,12 +22,23 @@
 (* Variant = "asis" is the code as it is.  The other variants are the         *)
 (* mistakes C19 is meant to catch; each must violate a named property (model  *)
 (* level negative controls, run by checks/c19.py).                           *)
+(*                                                                          *)
+(* DevIgnoredWrite = TRUE is the deviation "result of write ignored in path   *)
+(* X": the sites in `xsites` (path X, e.g. the slow path of write_string for  *)
+(* literal strings that need escaping) hand their buffer to ONE               *)
+(* CountingWrite::write (which counts the accepted bytes only) and drop the    *)
+(* returned count: a short write loses the rest of the buffer, Ok(0) is taken  *)
+(* as "nothing written, fine", Interrupted comes back through `?`.  The        *)
+(* counter stays equal to what the sink holds (CounterInv survives), yet TLC   *)
+(* must refute Accounted, Accounting, ChunkFree, Prefix, ErrSurfaces and Retry *)
+(* (checks/c19.py runs them one by one).  With FALSE xsites is empty.          *)
 (***************************************************************************)
 EXTENDS SaveSink, TLC
 
 CONSTANTS Variant,      \* "asis" | "count_accepted" | mutants, see WLoop
           MaxIntr,      \* bound on Interrupted answers per save
-          KeepHist      \* record the sink's call log (needed for REPLAY emission and AbstractionOK)
+          KeepHist,     \* record the sink's call log (needed for REPLAY emission and AbstractionOK)
+          DevIgnoredWrite \* deviation switch: sites of path X use `write` and ignore its result
 
 VARIABLES prog,         \* the writer's program: sequence of buffers (sequences of byte values)
           raw1,         \* call 1 bypasses CountingWrite::write_all (incremental save, previous bytes)
@@ -42,21 +53,23 @@ VARIABLES prog,         \* the writer's program: sequence of buffers (sequences 
           offsets,      \* counter values read at the start of each site
           failed,       \* the sink answered Ok(0)/Err in this attempt
           nintr,        \* Interrupted answers so far
-          hist          \* <<len, res>> per sink call of attempt 1 (if KeepHist)
+          hist,         \* <<len, res>> per sink call of attempt 1 (if KeepHist)
+          xsites        \* indices of the sites on path X (empty unless DevIgnoredWrite)
 
-vars == <<prog, raw1, attempt, i, rest, resp, delivered, counter, pc, result, offsets, failed, nintr, hist>>
+vars == <<prog, raw1, attempt, i, rest, resp, delivered, counter, pc, result, offsets, failed, nintr, hist, xsites>>
 
 Variants == {"asis", "count_accepted", "double_count", "single_write", "swallow_err", "retry_err",
              "ok0_retry", "intr_fatal", "counter_persist"}
 
 Full == Flatten(prog)
 
-InitWith(p, r) ==
-    /\ prog = p /\ raw1 = r /\ attempt = 1 /\ i = 1 /\ rest = <<>> /\ resp = 0
+InitWith(p, r, xs) ==
+    /\ prog = p /\ raw1 = r /\ xsites = xs /\ attempt = 1 /\ i = 1 /\ rest = <<>> /\ resp = 0
     /\ delivered = <<>> /\ counter = 0 /\ pc = "call" /\ result = "none" /\ offsets = <<>>
     /\ failed = FALSE /\ nintr = 0 /\ hist = <<>>
 
 IsRaw(k) == raw1 /\ k = 1
+IsX(k)   == k \in xsites /\ ~IsRaw(k)
 
 -----------------------------------------------------------------------------
 (* Writer *)
@@ -65,18 +78,18 @@ IsRaw(k) == raw1 /\ k = 1
 WCall ==
     /\ pc = "call" /\ i <= Len(prog) /\ result = "none"
     /\ offsets' = Append(offsets, counter)
-    /\ counter' = IF IsRaw(i) \/ Variant = "count_accepted" THEN counter ELSE counter + Len(prog[i])
+    /\ counter' = IF IsRaw(i) \/ IsX(i) \/ Variant = "count_accepted" THEN counter ELSE counter + Len(prog[i])
     /\ rest' = prog[i]
     /\ IF prog[i] = <<>>                \* write_all(b"") never calls inner.write
        THEN i' = i + 1 /\ pc' = "call"
        ELSE i' = i /\ pc' = "sink"
-    /\ UNCHANGED <<prog, raw1, attempt, resp, delivered, result, failed, nintr, hist>>
+    /\ UNCHANGED <<prog, raw1, attempt, resp, delivered, result, failed, nintr, hist, xsites>>
 
 \* all sites done: save_internal returns Ok(())
 WFinish ==
     /\ pc = "call" /\ i = Len(prog) + 1 /\ result = "none"
     /\ result' = "ok" /\ pc' = "done"
-    /\ UNCHANGED <<prog, raw1, attempt, i, rest, resp, delivered, counter, offsets, failed, nintr, hist>>
+    /\ UNCHANGED <<prog, raw1, attempt, i, rest, resp, delivered, counter, offsets, failed, nintr, hist, xsites>>
 
 Abort == result' = "err" /\ pc' = "done" /\ UNCHANGED <<i, rest, counter>>
 
@@ -89,8 +102,13 @@ Completed(cnt) ==
 \* std::io::Write::write_all, one iteration: react to the sink's answer
 WLoop ==
     /\ pc = "ret"
-    /\ UNCHANGED <<prog, raw1, attempt, resp, delivered, offsets, failed, nintr, hist>>
-    /\ IF resp > 0 THEN
+    /\ UNCHANGED <<prog, raw1, attempt, resp, delivered, offsets, failed, nintr, hist, xsites>>
+    /\ IF IsX(i) THEN
+          \* path X under DevIgnoredWrite: `file.write(buf)?;` - one call, the returned count is dropped
+          IF resp > 0 THEN Completed(counter + resp)        \* CountingWrite::write counted what was accepted
+          ELSE IF resp = ROk0 THEN Completed(counter)       \* Ok(0): "0 bytes written, fine"
+          ELSE Abort                                        \* Interrupted and Err alike come back through `?`
+       ELSE IF resp > 0 THEN
           LET cnt == IF Variant \in {"count_accepted", "double_count"} /\ ~IsRaw(i) THEN counter + resp ELSE counter
               r2  == IF Variant = "single_write" THEN <<>> ELSE SubSeq(rest, resp + 1, Len(rest))
           IN IF r2 = <<>> THEN Completed(cnt)
@@ -112,7 +130,7 @@ SaveAgain ==
     /\ attempt' = 2 /\ i' = 1 /\ rest' = <<>> /\ delivered' = <<>> /\ pc' = "call" /\ result' = "none"
     /\ counter' = IF Variant = "counter_persist" THEN counter ELSE 0
     /\ offsets' = <<>> /\ failed' = FALSE
-    /\ UNCHANGED <<prog, raw1, resp, nintr, hist>>
+    /\ UNCHANGED <<prog, raw1, resp, nintr, hist, xsites>>
 
 WriterNext == WCall \/ WFinish \/ WLoop \/ SaveAgain
 
@@ -125,7 +143,7 @@ Respond(r) ==
     /\ delivered' = IF r > 0 THEN delivered \o SubSeq(rest, 1, r) ELSE delivered
     /\ failed' = (failed \/ IsFailure(r))
     /\ hist' = IF KeepHist /\ attempt = 1 THEN Append(hist, <<Len(rest), r>>) ELSE hist
-    /\ UNCHANGED <<prog, raw1, attempt, i, rest, counter, result, offsets>>
+    /\ UNCHANGED <<prog, raw1, attempt, i, rest, counter, result, offsets, xsites>>
 
 SinkAccept == \E k \in 1..Len(rest) : (attempt = 1 \/ k = Len(rest)) /\ Respond(k) /\ UNCHANGED nintr
 SinkIntr   == attempt = 1 /\ nintr < MaxIntr /\ Respond(RIntr) /\ nintr' = nintr + 1
@@ -141,7 +159,28 @@ SinkNext == SinkAccept \/ SinkIntr \/ SinkOk0 \/ SinkErr
 TypeOK ==
     /\ pc \in {"call", "sink", "ret", "done"} /\ result \in {"none", "ok", "err"}
     /\ attempt \in {1, 2} /\ i \in 1..(Len(prog) + 1) /\ counter \in Nat /\ nintr \in 0..MaxIntr
-    /\ failed \in BOOLEAN /\ raw1 \in BOOLEAN
+    /\ failed \in BOOLEAN /\ raw1 \in BOOLEAN /\ xsites \subseteq 1..Len(prog)
+    /\ (DevIgnoredWrite \/ xsites = {})
+
+\* The writer-side contract of the inner.write protocol: every byte handed to the sink is accounted for.
+\* The result of each write is consumed: after Ok(k) with k < Len(rest) the writer advances by exactly k and
+\* presents the remaining bytes again; after Ok(k) with the whole rest accepted it moves to the next site;
+\* Interrupted is retried with the same bytes; Ok(0) (ErrorKind::WriteZero) and Err end the save with an error.
+Accounted == [][ pc = "ret" =>
+    IF resp > 0 THEN
+        IF resp < Len(rest)
+        THEN rest' = SubSeq(rest, resp + 1, Len(rest)) /\ pc' = "sink" /\ i' = i /\ result' = result
+        ELSE i' = i + 1 /\ pc' = "call" /\ result' = result
+    ELSE IF resp = RIntr THEN rest' = rest /\ pc' = "sink" /\ i' = i /\ result' = result
+    ELSE result' = "err" /\ pc' = "done" ]_vars
+
+\* ... as a state invariant: until the save has failed, what the sink holds followed by what the writer
+\* still owes is the complete output - nothing is lost, duplicated or reordered
+LaterSites(k) == Flatten(SubSeq(prog, k, Len(prog)))
+Owed == IF pc = "sink" THEN rest \o LaterSites(i + 1)
+        ELSE IF pc = "ret" THEN (IF resp > 0 THEN SubSeq(rest, resp + 1, Len(rest)) ELSE rest) \o LaterSites(i + 1)
+        ELSE LaterSites(i)
+Accounting == result # "err" => delivered \o Owed = Full
 
 \* at every state: what the sink holds is a prefix of the complete output
 Prefix == IsPrefix(delivered, Full)
